@@ -150,3 +150,20 @@ CHECKS["C12"] = dict(
         dict(pkg="server", name="C12_compare", bound="all pairs of 16-byte log positions", flags=["-witness", "1", "-timeout", "5000"], reach=["end"]),
     ],
 )
+
+CHECKS["C18"] = dict(
+    explanation="bounded symbolic execution of the real BinaryServerProtocol (ProcessCommad will registration, Close) on a harness-defined net.Conn, LockDB.Lock/UnLock, the timeout sweep, and ProxyServerProtocol.ProcessLockResultCommandLocked with symbolic client ids",
+    assumptions=["the connection is a harness-defined net.Conn; what makes Process() return is outside"],
+    harnesses=[
+        dict(pkg="server", name="C18_wills", bound="0..3 registered wills, each a LOCK of one shared exclusive key (so order is observable) or an UNLOCK of the connection's hold; one hold and one queued request left behind; Close twice; clock advanced past the queued request's timeout", flags=["-witness", "1"], reach=["end", "closed"]),
+        dict(pkg="server", name="C18_route", bound="a closed client's proxy with a symbolic 16-byte client id, two connected clients with symbolic client ids", flags=["-witness", "1"], reach=["end", "dropped", "rerouted"]),
+    ],
+)
+
+CHECKS["C19"] = dict(
+    explanation="bounded symbolic execution of the real client primitives' command construction (client.Lock/RLock/RWLock/Semaphore/MaxConcurrentFlow) composed with the real server admission (LockDB.Lock/UnLock) through a harness IClient",
+    assumptions=["transport replaced by an in-process IClient (no TCP, no RequestId matching under goroutines); sequential use with timeout 0"],
+    harnesses=[
+        dict(pkg="server", name="C19_primitives", bound="Lock (2 objects), RLock (depth 1..3, 2 objects), Semaphore(n) and MaxConcurrentFlow(n) with symbolic n in 1..4 and 6 acquires + 1 release, RWLock (writer/readers in both orders)", flags=["-witness", "1"], reach=["end"]),
+    ],
+)
